@@ -969,3 +969,84 @@ func feasiblyReaches(from, to ssa.Instruction, limit int) bool {
 	walk(fb, nil, base)
 	return found
 }
+
+// ---- permission checks, direct or through a naming wrapper ----
+
+// permCheck describes `recv.checkPermission(mask, user)`; for a call of an unexported wrapper whose every return is
+// such a call on one of its own parameters (e.g. `func (dn *dirNode) canModifyEntries(u) bool { return
+// dn.checkPermission(OpenWrite|OpenLookup, u) }`), recv and mask are expressed with the caller's values.
+type permCheck struct {
+	recv ssa.Value
+	mask ssa.Value
+	call *ssa.Call // the call in the function under analysis
+}
+
+func asPermCheck(v ssa.Value) (permCheck, bool) {
+	c, ok := v.(*ssa.Call)
+	if !ok {
+		return permCheck{}, false
+	}
+	if fn := calleeFunc(c); fn != nil && nm(fn) == "checkPermission" {
+		args := callArgs(c)
+		if len(args) < 1 || callRecv(c) == nil {
+			return permCheck{}, false
+		}
+		return permCheck{callRecv(c), args[0], c}, true
+	}
+	g := c.Call.StaticCallee()
+	if g == nil || len(g.Blocks) == 0 || g.Pkg == nil || !strings.HasPrefix(g.Pkg.Pkg.Path(), modPath) || isEntryPoint(g) {
+		return permCheck{}, false
+	}
+	if g.Signature.Results().Len() != 1 {
+		return permCheck{}, false
+	}
+	rets := returnsOf(g)
+	if len(rets) != 1 {
+		return permCheck{}, false
+	}
+	inner, ok := asPermCheck(strip(resolve1(rets[0].Results[0])))
+	if !ok {
+		return permCheck{}, false
+	}
+	// map the wrapper's parameters to the caller's arguments (c.Call.Args includes the receiver for static calls)
+	toCaller := func(iv ssa.Value) ssa.Value {
+		iv = strip(iv)
+		if k, isC := iv.(*ssa.Const); isC {
+			return k
+		}
+		// the address of an embedded struct of a parameter (dn.baseNode) denotes the parameter's object
+		for {
+			fa, isFA := iv.(*ssa.FieldAddr)
+			if !isFA {
+				break
+			}
+			fv := fieldVar(fa)
+			if fv == nil || !fv.Embedded() {
+				return nil
+			}
+			iv = strip(fa.X)
+		}
+		if p, isP := iv.(*ssa.Parameter); isP {
+			for i, gp := range g.Params {
+				if gp == p && i < len(c.Call.Args) {
+					return c.Call.Args[i]
+				}
+			}
+		}
+		return nil
+	}
+	recv, mask := toCaller(inner.recv), toCaller(inner.mask)
+	if recv == nil || mask == nil {
+		return permCheck{}, false
+	}
+	return permCheck{recv, mask, c}, true
+}
+
+// permFact: the fact is the outcome of a permission check (direct or through a wrapper).
+func permFact(fa Fact) (permCheck, bool, bool) {
+	v, truth := normCond(fa.Cond, fa.Truth)
+	if pc, ok := asPermCheck(v); ok {
+		return pc, truth, true
+	}
+	return permCheck{}, false, false
+}
